@@ -122,6 +122,7 @@ def run(ctx):
     ctx.floor(R1, 25)
     _http_decomposition(ctx, P)
     _header_line(ctx, P)
+    _cookie_pairs(ctx)
     sc = P.fn('cppcms::impl::cgi::scgi::keep_alive')
     rets = [r for r in sc.returns() if sc.ret_value(r) is not None]
     ctx.check(bool(rets) and all(sc.const_value(sc.ret_value(r)) == 0 for r in rets), R3, 'scgi::keep_alive:false', 'SCGI connections can be reused although the class has no per-request reset', sc.where)
@@ -848,3 +849,152 @@ def _header_line(ctx, P):
         bad, nb = run(list(tmpl), free)
         ctx.check(bad is None, R7, 'parse_single_header:%s' % tag, bad or '', f.where, detail={'boxes': nb})
     ctx.floor(R7, 6)
+
+
+def _cookie_pairs(ctx):
+    """C01.R8: the Cookie header scanner on well-formed cookie strings (E3)"""
+    import itertools
+    from vlib import absint
+    from vlib.absint import AV, Arr, PV, Cell, Out
+    R8 = ctx.rule('C01.R8', 'Cookie header scanner: for name=value pairs (names and values of 1..2 arbitrary token characters, values also quoted with arbitrary content and backslash escapes) joined by the usual separators, read_key_value returns exactly the name and the (unquoted) value, byte for byte, and leaves the cursor at the next pair; a piece without a name is skipped up to the next separator; parse_cookies stores every completed pair')
+    PR = model.Program(build.extract([REPO + '/src/http_request.cpp'], include_re='^/repo/(src|private|cppcms)/'))
+    ctx.units.append('src/http_request.cpp')
+    RQ = 'cppcms::http::request'
+    f = PR.fn(RQ + '::read_key_value')
+    SEP = set(b'()<>@,;:\\"/[]?={} \t')
+    tok = [c for c in range(0x21, 0x7F) if c not in SEP]
+    TOK = []
+    for c in tok:
+        if TOK and TOK[-1][1] == c - 1:
+            TOK[-1] = (TOK[-1][0], c)
+        else:
+            TOK.append((c, c))
+    ANY_Q = [(-128, 33), (35, 91), (93, 127)]          # inside quotes: everything but " and backslash
+
+    def run(parts):
+        """parts: list of bytes (fixed) or ('free', [intervals]) -> explores all boxes; returns list of (box, result)"""
+        layout, free_iv = [], []
+        for part in parts:
+            if isinstance(part, tuple):
+                layout.append(('f', len(free_iv)))
+                free_iv.append(part[1])
+            else:
+                layout += [('c', b) for b in part]
+        out = []
+        for combo in itertools.product(*free_iv):
+            def runs(it, combo=combo):
+                el = []
+                for kind, v in layout:
+                    el.append(it.inbyte(v) if kind == 'f' else AV.const(v - 256 if v > 127 else v))
+                arr = Arr(el + [AV.const(0)], 'str:cookie')
+                res = []
+                pc = Cell(PV(arr, 0))
+                for _ in range(3):
+                    if pc.v.off >= len(el):
+                        break
+                    key, val = Cell(Out('key')), Cell(Out('val'))
+                    r = it.call_fn(f, [pc, PV(arr, len(el)), key, val])
+                    res.append((r, pc.v.off, list(key.v.items), list(val.v.items)))
+                return res
+            for (bx, res, it) in absint.explore(PR, runs, [list(combo)]):
+                out.append((bx, res, layout))
+        return out
+
+    def same(items, spec, bx):
+        """items: AVs; spec: list of ('c', byte) / ('f', k): constant byte or identity copy of free byte k"""
+        if len(items) != len(spec):
+            return False
+        for e, (kind, v) in zip(items, spec):
+            if kind == 'c':
+                if not (isinstance(e, int) and e == (v - 256 if v > 127 else v)) and not (hasattr(e, 'is_const') and e.is_const() and (e.lo & 0xFF) == v):
+                    return False
+            else:
+                if isinstance(e, int):
+                    if not (bx[v][0] == bx[v][1] == e):
+                        return False
+                elif not (e.deps == frozenset([v]) and e.lo == bx[v][0] and e.hi == bx[v][1]):
+                    return False
+        return True
+    cases = 0
+    bad = None
+    F = lambda k_: ('f', k_)
+    for sep in (b'; ', b';', b', ', b' ; '):
+        for quoted in (False, True):
+            # N1 N2 = V1 V2 sep n = w
+            variants = []
+            if not quoted:
+                # one free character at a time (the others fixed): k1 k2 = v1 v2
+                for pos in range(4):
+                    cells = [b'k', b'K', b'v', b'V']
+                    cells[pos] = ('free', TOK)
+                    spec = [('c', ord('k')), ('c', ord('K')), ('c', ord('v')), ('c', ord('V'))]
+                    spec[pos] = F(0)
+                    variants.append(([cells[0], cells[1], b'=', cells[2], cells[3], sep, b'n=w'], spec[:2], spec[2:], 5))
+            else:
+                variants.append(([('free', TOK), b'="', ('free', ANY_Q), b'\\', ('free', [(-128, 127)]), b'"', sep, b'n=w'], [F(0)], [F(1), F(2)], 7))
+            for (parts, key_spec, val_spec, pre) in variants:
+              nxt = pre + len(sep)
+              for (bx, res, layout) in run(parts):
+                  cases += 1
+                  ok = len(res) == 2 and all(isinstance(r[0], AV) and r[0].is_const() and r[0].lo == 1 for r in res)
+                  if ok:
+                      (r1, p1, k1, v1), (r2, p2, k2, v2) = res
+                      ok = p1 == nxt and same(k1, key_spec, bx) and same(v1, val_spec, bx) and same(k2, [('c', ord('n'))], bx) and same(v2, [('c', ord('w'))], bx) and p2 == len(layout)
+                  if not ok:
+                      bad = bad or ('separator %r, %s value, box %s: scanner returned %s' % (sep, 'quoted' if quoted else 'token', bx, [(getattr(r[0], 'lo', r[0]), r[1], r[2], r[3]) for r in res]))
+    ctx.check(bad is None, R8, 'read_key_value:name=value-pairs-with-every-separator', bad or '', f.where, detail={'boxes': cases})
+    # a piece without a name is skipped as a whole
+    bad = None
+    for (bx, res, layout) in run([b'=', ('free', TOK), b'; n=w']):
+        ok = len(res) == 2 and res[0][0].is_const() and res[0][0].lo == 0 and res[0][1] == 3 and res[1][0].lo == 1 and same(res[1][2], [('c', ord('n'))], bx) and same(res[1][3], [('c', ord('w'))], bx)
+        if not ok:
+            bad = bad or ('box %s: %s' % (bx, [(getattr(r[0], 'lo', r[0]), r[1], r[2], r[3]) for r in res]))
+    ctx.check(bad is None, R8, 'read_key_value:nameless-piece-skipped-to-the-next-separator', bad or '', f.where)
+    # parse_cookies: every pair that was read and does not start with $ becomes a cookie, the last one included
+    pcf = PR.fn(RQ + '::parse_cookies')
+    rk = [i for i in pcf.calls() if pcf.bcallee(i) == RQ + '::read_key_value']
+    ins = [i for i in pcf.calls() if q.short_of(pcf.bcallee(i) or '') == 'insert' and any(model.strip_targs(r).endswith('request::cookies_') for r in pcf.subtree_refs(pcf.obj(i)) if pcf.obj(i) is not None)]
+    # a helper of the file that is handed cookies_ and stores a named cookie into it counts as a storing site
+    via_helper = set()
+    for i in pcf.calls():
+        g_ = PR.fns.get(pcf.N(i).get('callee') or '')
+        if g_ is None or g_.entry is None or g_.file != pcf.file or g_ is pcf or not any(model.strip_targs(r).endswith('request::cookies_') for a_ in pcf.args(i) for r in pcf.subtree_refs(a_)):
+            continue
+        gi = [j for j in g_.calls() if q.short_of(g_.bcallee(j) or '') == 'insert' and g_.obj(j) is not None and g_.ref_of(g_.obj(j)) in [p_['ref'] for p_ in g_.params]]
+        gn = q.empty_gate(g_, None, False)
+        if len(gi) == 1 and gn and g_.only_through(gi[0], gn) and g_.exit not in g_.reachable_blocks(cut_blocks=[g_.point_of(gi[0])[0]], cut_edges=q.empty_gate(g_, None, True)):
+            ins.append(i)
+            via_helper.add(i)
+    okc = len(rk) == 1 and len(ins) == 2
+    if okc:
+        kv, vv = pcf.ref_of(pcf.args(rk[0])[2]), pcf.ref_of(pcf.args(rk[0])[3])
+        mk = [i for i in pcf.calls() if pcf.N(i)['k'] in ('CXXConstructExpr', 'CXXTemporaryObjectExpr') and (pcf.callee(i) or '').endswith('cookie::cookie') and len([a for a in pcf.args(i) if pcf.N(a)['k'] != 'CXXDefaultArgExpr']) >= 2]
+        okc = kv is not None and vv is not None and any(kv in pcf.subtree_refs(pcf.args(i)[0]) and vv in pcf.subtree_refs(pcf.args(i)[1]) and vv not in pcf.subtree_refs(pcf.args(i)[0]) for i in mk)
+        L = [L for L in q.loops(pcf) if pcf.contains(L, rk[0])]
+        okc = okc and len(L) == 1 and len([i for i in ins if pcf.contains(L[0], i)]) == 1 and len([i for i in ins if not pcf.contains(L[0], i)]) == 1
+        g_named = q.empty_gate(pcf, None, False)
+        okc = okc and all(i in via_helper or (bool(g_named) and pcf.only_through(i, g_named)) for i in ins)
+        # after the loop the pending cookie is stored unless it has no name
+        last = [i for i in ins if not pcf.contains(L[0], i)][0]
+        reach = pcf.reachable_blocks(cut_blocks=[pcf.point_of(last)[0]], cut_edges=q.empty_gate(pcf, None, True))
+        okc = okc and pcf.exit not in reach
+    if okc:
+        Lc = L[0]
+        cn_ = pcf.N(pcf.strip(pcf.N(Lc)['cond']))
+        pv_ = pcf.ref_of(pcf.args(rk[0])[0])
+        evs_ = [r for r in pcf.subtree_refs(pcf.args(rk[0])[1]) if r.startswith('v:')]
+        okc = cn_['k'] in ('BinaryOperator', 'CXXOperatorCallExpr') and cn_.get('op') in ('<', '!=') and pcf.ref_of(cn_['ch'][-2]) == pv_ and len(evs_) == 1 and pcf.ref_of(cn_['ch'][-1]) == evs_[0]
+        g_ok = q.call_gate(pcf, lambda i: i == rk[0], True)
+        g_fail = q.call_gate(pcf, lambda i: i == rk[0], False)
+        newc = [i for i in mk if kv in pcf.subtree_refs(pcf.args(i)[0])] if len(mk) else []
+        g_dollar = pcf.gate_edges(lambda atom, pol: pcf.N(atom)['k'] == 'BinaryOperator' and pcf.N(atom).get('op') in ('==', '!=') and pcf.const_value(pcf.N(atom)['ch'][1]) == 36 and kv in pcf.subtree_refs(atom) and
+                                  any(pcf.N(j)['k'] == 'CXXOperatorCallExpr' and pcf.N(j).get('op') == '[]' and pcf.const_value(pcf.N(j)['ch'][2]) == 0 for j in pcf.walk(pcf.N(atom)['ch'][0])) and ((pcf.N(atom)['op'] == '==') == pol))
+        okc = okc and bool(g_ok) and bool(g_fail) and bool(g_dollar) and len(newc) == 1 and pcf.only_through(newc[0], g_ok)
+        if okc:
+            # a pair that was read and is not a $-attribute always becomes the pending cookie before the next turn
+            body0 = pcf.point_of(pcf.N(Lc)['body'])[0]
+            condb = pcf.point_of(pcf.N(Lc)['cond'])[0]
+            reach = pcf.reachable_blocks(start=body0, cut_blocks=[pcf.point_of(newc[0])[0]], cut_edges=list(g_fail) + list(g_dollar))
+            okc = condb not in reach
+    ctx.check(okc, R8, 'parse_cookies:every-completed-pair-is-stored', 'a name=value pair that was read is not turned into a cookie and stored (the last one included)', pcf.where)
+    ctx.floor(R8, 3)
